@@ -47,6 +47,12 @@ impl<T> Injector<T> {
         g.push_back(item);
         let _ = INJECTOR_ITEMS.fetch_add(1, Ordering::Relaxed);
     }
+    pub fn is_empty(&self) -> bool {
+        self.q.lock().unwrap().is_empty()
+    }
+    pub fn len(&self) -> usize {
+        self.q.lock().unwrap().len()
+    }
     pub fn steal(&self) -> Steal<T> {
         let mut g = self.q.lock().unwrap();
         match g.pop_front() {
@@ -92,6 +98,16 @@ impl<K: Ord + Copy, V> SkipMap<K, V> {
         let mut g = self.m.lock().unwrap();
         let v = g.entry(key).or_insert_with(|| Arc::new(f())).clone();
         Entry { key, value: v, _p: PhantomData }
+    }
+    pub fn get(&self, key: &K) -> Option<Entry<'_, K, V>> {
+        let g = self.m.lock().unwrap();
+        g.get(key).map(|v| Entry { key: *key, value: v.clone(), _p: PhantomData })
+    }
+    pub fn is_empty(&self) -> bool {
+        self.m.lock().unwrap().is_empty()
+    }
+    pub fn len(&self) -> usize {
+        self.m.lock().unwrap().len()
     }
     pub fn iter(&self) -> std::vec::IntoIter<Entry<'_, K, V>> {
         let g = self.m.lock().unwrap();
@@ -146,6 +162,15 @@ pub enum MapEntry<'a, K, V> {
 
 impl<K: Eq + Hash + Clone, V: Clone> MapEntry<'_, K, V> {
     /// atomic get-or-insert (mirrors dashmap's entry().or_insert_with())
+    pub fn or_insert(self, v: V) -> Ref<V> {
+        self.or_insert_with(|| v)
+    }
+    pub fn or_default(self) -> Ref<V>
+    where
+        V: Default,
+    {
+        self.or_insert_with(V::default)
+    }
     pub fn or_insert_with<F: FnOnce() -> V>(self, f: F) -> Ref<V> {
         let MapEntry::Slot(m, k) = self;
         let mut g = m.m.lock().unwrap();
